@@ -171,7 +171,13 @@ impl Exp {
                     },
                     BinOp::Mul => match (lhs, rhs) {
                         (Exp::Number(lhs), Exp::Number(rhs)) => Exp::Number(lhs * rhs),
-                        (Exp::Number(0.0), _) | (_, Exp::Number(0.0)) => Exp::Number(0.0),
+                        // a product with zero is zero, unless that would hide a
+                        // division by zero or by a variable from the linearizer
+                        (Exp::Number(0.0), other) | (other, Exp::Number(0.0))
+                            if !other.has_unchecked_division() =>
+                        {
+                            Exp::Number(0.0)
+                        }
                         (Exp::Number(1.0), rhs) => rhs,
                         (lhs, Exp::Number(1.0)) => lhs,
                         (lhs, rhs) => Exp::BinOp(BinOp::Mul, lhs.to_box(), rhs.to_box()),
@@ -397,6 +403,27 @@ impl Exp {
         }
     }
 
+    /// Whether the expression still contains a division whose divisor is not a
+    /// non-zero constant. Such a division is reported by the linearizer (division
+    /// by zero, or by a variable), so simplification must not make it disappear.
+    fn has_unchecked_division(&self) -> bool {
+        match self {
+            Exp::Number(_) | Exp::Variable(_) => false,
+            Exp::Abs(exp) | Exp::Not(exp) | Exp::UnOp(_, exp) => exp.has_unchecked_division(),
+            Exp::Min(exps) | Exp::Max(exps) | Exp::And(exps) | Exp::Or(exps) => {
+                exps.iter().any(|exp| exp.has_unchecked_division())
+            }
+            Exp::Xor(lhs, rhs) | Exp::Implies(lhs, rhs) | Exp::Iff(lhs, rhs) => {
+                lhs.has_unchecked_division() || rhs.has_unchecked_division()
+            }
+            Exp::BinOp(op, lhs, rhs) => {
+                (*op == BinOp::Div && !matches!(**rhs, Exp::Number(value) if value != 0.0))
+                    || lhs.has_unchecked_division()
+                    || rhs.has_unchecked_division()
+            }
+        }
+    }
+
     /// Checks if the expression is a leaf node (number or variable).
     ///
     /// # Returns
@@ -522,15 +549,26 @@ fn simplify_logic_nary(exps: &[Exp], is_and: bool) -> Exp {
             (_, exp) => flattened.push(exp),
         }
     }
+    // an absorbing constant decides the whole expression, unless dropping the
+    // other operands would hide a division by zero or by a variable
+    let may_absorb = !flattened.iter().any(|exp| exp.has_unchecked_division());
     let mut result: Vec<Exp> = Vec::new();
     for exp in flattened {
         if let Exp::Number(value) = exp {
             let truthy = num_truthy(value);
             if is_and && !truthy {
-                return Exp::Number(0.0);
+                if may_absorb {
+                    return Exp::Number(0.0);
+                }
+                result.push(exp);
+                continue;
             }
             if !is_and && truthy {
-                return Exp::Number(1.0);
+                if may_absorb {
+                    return Exp::Number(1.0);
+                }
+                result.push(exp);
+                continue;
             }
             //identity constants are dropped
         } else {
